@@ -28,7 +28,7 @@ BOUNDSCHECK_TIERS = ("thorough",)
 
 
 def REQUIRED(tier):
-    return [f"t:{t}" for t in TRANSFORMS] + ["outputs_parsed", "outputs_compared", "spy:cwrite_calls", "regime:multi_block", "regime:subrange", "regime:multi_file_input", "regime:reader_with_history", "regime:single_read_over_64MiB", "regime:default_range_arguments", "regime:output_name_held_a_longer_file", "mask:nothing_flagged", "mask:non_finite_samples_in_masked_channels", "regime:trailing_zero_blocks", "regime:subband_over_257_channels_per_band"]
+    return [f"t:{t}" for t in TRANSFORMS] + ["outputs_parsed", "outputs_compared", "spy:cwrite_calls", "regime:multi_block", "regime:subrange", "regime:multi_file_input", "regime:reader_with_history", "regime:single_read_over_64MiB", "regime:default_range_arguments", "regime:output_name_held_a_longer_file", "mask:nothing_flagged", "mask:non_finite_samples_in_masked_channels", "regime:trailing_zero_blocks", "regime:subband_over_257_channels_per_band", "zerodm:channel_with_zero_mean_nonzero_samples"]
 
 
 def cases(tier, seed):
@@ -51,6 +51,8 @@ def cases(tier, seed):
                 nch = int(rng.choice([8, 16, 32]))
                 if nbits in (8, 32) and t in ("invert_freq", "apply_channel_mask", "extract_samps", "extract_chans", "remove_zerodm", "subband") and rng.random() < 0.35:
                     nch = int(rng.choice([1, 3, 5, 7, 13]))  # odd channel counts are legal at whole-byte depths
+                elif nbits in (2, 4) and t in ("invert_freq", "apply_channel_mask", "extract_samps", "remove_zerodm") and k % 3 == 0:
+                    nch = int(rng.choice([2, 4, 6, 10] if nbits == 4 else [4, 12, 20]))   # whole bytes per sample, but not a multiple of 8 channels
                 nfiles = int(rng.choice([1, 1, 2, 3]))
                 cuts = sorted(rng.choice(np.arange(1, N), size=nfiles - 1, replace=False).tolist()) if nfiles > 1 else []
                 split = [b - a for a, b in zip([0] + cuts, cuts + [N])]
@@ -319,6 +321,15 @@ def run_case(case, ctx):
             outs = [(out, nsub, 32, want, "exact")]
             case = dict(case, dm=dm, nsub=nsub, maxdelay=md)
         elif t == "remove_zerodm":
+            if nbits == 32 and nsamps % 2 == 0 and nch >= 3 and case["pseed"] % 2 == 0:
+                # a channel whose samples cancel exactly over the selected range (zero band-pass weight) although it is not empty
+                Xz = X.astype(np.float32).copy()
+                cz = int(rng.integers(0, nch))
+                Xz[start : start + nsamps, cz] = np.tile(np.array([2.0, -2.0], dtype=np.float32), nsamps // 2) * np.float32(1 + cz % 3)
+                paths = sigfile.write_split(d, Xz, 32, case["split"], fch1=1500.0, foff=-10.0, tsamp=1e-3, stem="zeromean")
+                fil = FilReader(paths if len(paths) > 1 else paths[0])
+                seg = Xz[start : start + nsamps].astype(np.float64)
+                ctx.count("zerodm:channel_with_zero_mean_nonzero_samples")
             fil.remove_zerodm(out, **rkw)
             b = seg.mean(axis=0)
             w = b / b.sum() if b.sum() else np.zeros_like(b)
